@@ -13,7 +13,12 @@ t0 = time.time()
 pr = cProfile.Profile()
 if os.environ.get("PROFILE"):
     pr.enable()
-res, info = v.run_contract(c, scenario_filter=set(names) if names else None)
+from pyvc.interp import PyRaise
+try:
+    res, info = v.run_contract(c, scenario_filter=set(names) if names else None)
+except PyRaise as e:
+    print("PYRAISE while building the pre-state:", e.exc.tname, e.exc.args, getattr(e.exc, "where", None))
+    raise SystemExit(3)
 if os.environ.get("PROFILE"):
     pr.disable()
 for r in res:
